@@ -626,3 +626,79 @@ def run(ctx):
         stream_costs(ctx, thc.compute_cost, sp.cost_sparse),
         stream_physical(ctx, pc),
     ]
+
+
+def replay(ctx, payload):
+    """re-run the recorded failing input on the real code with the Spec oracle -> True when it passes now"""
+    import importlib
+    v = payload.get('violation')
+    if not v:
+        return None
+    case = v['input']
+    fn = case.get('fn')
+    d = ctx.driver
+    lcu = importlib.import_module('openfermion.circuits.lcu_util')
+    ut = importlib.import_module('openfermion.resource_estimates.utils')
+    try:
+        if fn == '_preprocess_for_efficient_roulette_selection':
+            ws = case['weights']
+            alt, keep = lcu._preprocess_for_efficient_roulette_selection(list(ws))
+            return d.one({'op': 'c19.spec.alias', 'ws': ws, 'alt': [int(x) for x in alt], 'keep': [int(x) for x in keep]}) is True
+        if fn in ('preprocess_lcu_coefficients_for_reversible_sampling', '_discretize_probability_distribution'):
+            cs, eps = case['lcu_coefficients'], case['epsilon']
+            alt, keep, mu = lcu.preprocess_lcu_coefficients_for_reversible_sampling(list(cs), eps)
+            return d.one({'op': 'c19.spec.lcu', 'coeffs': frs(cs), 'eps': fr(eps), 'alt': [int(x) for x in alt],
+                          'keep': [int(x) for x in keep], 'mu': int(mu)}) is True
+        if fn in ('thc', 'sparse') and 'params' in case:
+            pr = case['params']
+            if fn == 'thc':
+                thc = importlib.import_module('openfermion.resource_estimates.thc.compute_cost_thc')
+                res = [int(x) for x in thc.compute_cost(*pr)]
+                lam, dE = pr[1], pr[2]
+            else:
+                sp = importlib.import_module('openfermion.resource_estimates.sparse.costing_sparse')
+                res = [int(x) for x in sp.cost_sparse(*pr)]
+                lam, dE = pr[1], pr[3]
+            it = d.one({'op': 'c19.iters', 'lam': fr(lam), 'dE': fr(dE)})
+            return it is not None and res[1] == res[0] * it
+        if fn == 'QR':
+            k, val = ut.QR(case['L'], case['M'])
+            return d.one({'op': 'c19.spec.qr', 'L': case['L'], 'M': case['M'], 'k': int(k), 'val': int(val), 'bound': 24}) is True
+        if fn == 'QI':
+            k, val = ut.QI(case['L'])
+            return d.one({'op': 'c19.spec.qi', 'L': case['L'], 'k': int(k), 'val': int(val), 'bound': 24}) is True
+        if fn == 'QR2':
+            r = [int(x) for x in ut.QR2(case['L1'], case['L2'], case['M'])]
+            return d.one({'op': 'c19.spec.grid2', 'kind': 'qr2', 'L1': case['L1'], 'L2': case['L2'], 'M': case['M'],
+                          'p1': r[0], 'p2': r[1], 'val': r[2]}) is True
+        if fn == 'QI2':
+            r = [int(x) for x in ut.QI2(case['L1'], case['L2'])]
+            return d.one({'op': 'c19.spec.grid2', 'kind': 'qi2', 'L1': case['L1'], 'L2': case['L2'],
+                          'p1': r[0], 'p2': r[1], 'val': r[2]}) is True
+        if fn == 'power_two':
+            return d.one({'op': 'c19.spec.power_two', 'm': case['m'], 'c': int(ut.power_two(case['m']))}) is True
+        if fn == 'lambda_norm':
+            import numpy
+            T, V = numpy.array(case['one_body'], dtype=float), numpy.array(case['two_body'], dtype=float)
+            H = ctx.of.DiagonalCoulombHamiltonian(T.copy(), V.copy(), constant=case['constant'])
+            x = Fraction(float(lcu.lambda_norm(H)))
+            terms = dch_terms(numpy.array(H.one_body).real, numpy.array(H.two_body), H.constant)
+            a = d.one({'op': 'c19.spec.jw_norm', 'n': T.shape[0], 'operator': enc_ferm(terms), 'with_id': False})
+            return a is not None and Fraction(a[0], a[1]) == x
+        if fn in ('get_one_norm_int', 'get_one_norm_int_woconst'):
+            import numpy
+            gon = importlib.import_module('openfermion.functionals.get_one_norm')
+            h = numpy.array(case['one_body_integrals'], dtype=float)
+            g = numpy.array(case['two_body_integrals'], dtype=float)
+            const = case['constant']
+            terms = enc_ferm(mol_terms(const, h, g))
+            if fn == 'get_one_norm_int':
+                x = Fraction(float(gon.get_one_norm_int(const, h, g)))
+                a = d.one({'op': 'c19.spec.jw_norm', 'n': 2 * h.shape[0], 'operator': terms, 'with_id': True})
+            else:
+                x = Fraction(float(gon.get_one_norm_int_woconst(h, g)))
+                a = d.one({'op': 'c19.spec.jw_norm', 'n': 2 * h.shape[0], 'operator': terms, 'with_id': False})
+            return a is not None and Fraction(a[0], a[1]) == x
+    except BaseException:  # noqa: BLE001
+        return False
+    return None
